@@ -359,18 +359,30 @@ def c18_l1(F, X, rep, bodies):
         b, wr = enc
         fn = F.root_of(b)
         nx = [c for c in b.calls if c.name == "std::iter::Iterator::next"]
-        ok = len(nx) == 1
-        rep.ob("C18-L1", ok, fn, "single loop over the records", where=nx[0].loc if nx else loc(b.span), how="1 Iterator::next", detail="" if ok else "%d iterator loops" % len(nx))
-        if nx:
-            it = strip(X.operand(b, nx[0].args[0]))
+        fe_sites = []
+        if not nx and b.kind == "Closure":
+            # `records.into_iter().for_each(|r| { .. })`: the closure body is the loop body
+            for (pb, bi, si, ops, st) in F.closure_sites.get(b.def_, []):
+                for c in pb.calls:
+                    if c.name == "std::iter::Iterator::for_each" and len(c.args) > 1 and any(y[0] == "agg" and y[1] == "closure:" + b.cdef for y in walk(strip(X.operand(pb, c.args[1])))):
+                        fe_sites.append((pb, c))
+        ok = len(nx) == 1 or len(fe_sites) == 1
+        rep.ob("C18-L1", ok, fn, "single loop over the records", where=nx[0].loc if nx else loc(b.span), how="1 Iterator::next / for_each", detail="" if ok else "%d iterator loops" % (len(nx) + len(fe_sites)))
+        if nx or fe_sites:
+            if nx:
+                it = strip(X.operand(b, nx[0].args[0]))
+                itloc = nx[0].loc
+            else:
+                it = strip(X.operand(fe_sites[0][0], fe_sites[0][1].args[0]))
+                itloc = fe_sites[0][1].loc
             names = [x[1] for x in walk(it) if x[0] == "call"]
             adapt = [n for n in names if n.startswith("std::iter::Iterator::") and n.split("::")[-1] in ITER_ADAPTORS]
             src = [n for n in names if n in ("core::slice::<impl [T]>::iter", "std::iter::IntoIterator::into_iter")]
             fld = [x for x in walk(it) if x[0] == "field" and x[1] == "entries"]
             ok = not adapt and bool(fld)
-            rep.ob("C18-L1", ok, fn, "iterates the record vector front to back without adaptors", where=nx[0].loc, how=show(it)[:100],
+            rep.ob("C18-L1", ok, fn, "iterates the record vector front to back without adaptors", where=itloc, how=show(it)[:100],
                    detail="" if ok else "iterator is %s" % show(it)[:140])
-            some = lib.enum_arm_target(b, nx[0].target, "Some") if nx[0].target is not None else None
+            some = (lib.enum_arm_target(b, nx[0].target, "Some") if nx[0].target is not None else None) if nx else 0
             # writes: typ, len(value), value in that order, each once per iteration
             puts = [c for c in b.calls if c.name in ("tlv::ProtoBufMut::put_compact_size", "bytes::BufMut::put", "bytes::BufMut::put_slice", "bytes::BufMut::extend_from_slice")]
             seq = sorted(puts, key=lambda c: len(b.dom.get(c.bb, ())))
@@ -384,7 +396,10 @@ def c18_l1(F, X, rep, bodies):
                    how=" ; ".join(show(e)[:50] for e in exprs), detail="" if chain_ok and want else "encoder writes %s" % [show(e)[:60] for e in exprs])
             # no conditional skipping inside the loop body: every put is reached on every iteration
             if some is not None and seq:
-                skip = [c for c in seq if not _all_paths_pass(b, some, nx[0].bb, c.bb)]
+                if nx:
+                    skip = [c for c in seq if not _all_paths_pass(b, some, nx[0].bb, c.bb)]
+                else:
+                    skip = [c for c in seq if any(not b.dominates(c.bb, r) for r in b.returns())]
                 rep.ob("C18-L1", not skip, fn, "no record or field is skipped", where=seq[0].loc, how="each write is on every path of the loop body",
                        detail="" if not skip else "write at %s can be skipped" % skip[0].loc)
             # full value slice
@@ -504,21 +519,41 @@ def c18_u(F, X, rep, bodies):
     rep.ob("C18-U", ok, fn, "conversion only for 1..=8 bytes", where=fbe.loc, how="remaining in %s at from_be_bytes" % (iv,),
            detail="" if ok else "from_be_bytes reached with remaining in %s" % (iv,))
     # Ok(0) on the remaining == 0 edge, Err on > 8
-    res = lib.path_intervals(b, ro, set(b.returns()), start=r0.target)
-    okz = okbig = False
-    zero_detail = big_detail = ""
+    # path-sensitive: along every feasible path from the length read to a result, refine the length by the tests on it
+    # (`if`, `match` with literals and ranges alike); a path on which the length is 0 must end in Ok(0), a path on which
+    # it can exceed 8 must end in Err
+    sites = {}
     for bi in sorted(b.reachable):
         for s in b.blocks[bi]["s"]:
-            if s["k"] == "assign" and s["lhs"]["l"] == 0 and s["rv"]["k"] == "agg":
-                ivb = Intervals(b).at(ro, bi)
-                v = s["rv"].get("variant")
-                if ivb == (0, 0):
-                    e = strip(X.operand(b, s["rv"]["ops"][0]))
-                    okz = v == "Ok" and e[0] == "const" and e[2] == 0
-                    zero_detail = "%s(%s)" % (v, show(e))
-                if ivb is not None and ivb[0] >= 9:
-                    okbig = v == "Err"
-                    big_detail = v
+            if s["k"] == "assign" and s["lhs"]["l"] == 0 and not s["lhs"]["p"] and s["rv"]["k"] == "agg":
+                sites[bi] = s
+    res = lib.path_intervals(b, ro, set(sites), start=r0.target)
+    okz = okbig = False
+    zero_detail = big_detail = ""
+    nz = nbig = 0
+    badz = badbig = 0
+    if res is not None:
+        for bi, ivs in res[0].items():
+            s = sites[bi]
+            v = s["rv"].get("variant")
+            for lo, hi in ivs:
+                if lo == 0 and hi == 0:
+                    nz += 1
+                    e = strip(X.operand(b, s["rv"]["ops"][0])) if s["rv"]["ops"] else ("unknown",)
+                    if not (v == "Ok" and e[0] == "const" and e[2] == 0):
+                        badz += 1
+                        zero_detail = "%s(%s)" % (v, show(e))
+                elif lo == 0:
+                    nz += 1
+                    badz += 1
+                    zero_detail = "an unrefined length (the empty input is not told apart)"
+                if hi >= 9:
+                    nbig += 1
+                    if v != "Err":
+                        badbig += 1
+                        big_detail = "%s on a path where the length is in [%d, %d]" % (v, lo, hi)
+        okz = nz > 0 and badz == 0
+        okbig = nbig > 0 and badbig == 0
     rep.ob("C18-U", okz, fn, "0 bytes decode to 0", where=loc(b.span), how="Ok(0) on the remaining()==0 path", detail="" if okz else "empty input yields %s" % (zero_detail or "no explicit result"))
     rep.ob("C18-U", okbig, fn, "more than 8 bytes are rejected", where=loc(b.span), how="Err on the remaining()>8 path", detail="" if okbig else "over-long input yields %s" % (big_detail or "no Err"))
     # right alignment: destination index start = 8 - remaining into a zeroed [u8; 8]; source = chunk()
